@@ -371,6 +371,20 @@ func (w *World) GuardsDeep(fn *ssa.Function, depth int) []*Guard {
 		for _, an := range f.AnonFuncs {
 			rec(an, d-1)
 		}
+		// handlers picked from a literal dispatch table
+		for _, b := range f.Blocks {
+			for _, in := range b.Instrs {
+				if lk, ok := in.(*ssa.Lookup); ok {
+					if lm := w.literalMap(stripConv(lk.X)); lm != nil {
+						for _, ent := range lm.Entries {
+							if cal, _ := w.calleeOfValue(ent.Val); cal != nil && w.InModule(cal) {
+								rec(cal, d-1)
+							}
+						}
+					}
+				}
+			}
+		}
 	}
 	rec(fn, depth)
 	return out
@@ -664,6 +678,13 @@ type pathState struct {
 	// concrete: blocks whose branch the path decided by integer evaluation (headers
 	// of loops over literal tables: these may be unrolled)
 	concrete map[*ssa.BasicBlock]bool
+	// lookups: what a lookup in a literal dispatch table yields on this path
+	lookups map[*ssa.Lookup]lookupBinding
+	// keyFact: what the path knows about a table key (canonical form of the key
+	// expression): the entry it equals, or that it equals none of the table's keys
+	keyFact map[string]keyFact
+	// nilFact: values compared with nil at a branch the path took (+1 non-nil, -1 nil)
+	nilFact map[ssa.Value]int
 	// callRes: canonical results of helpers expanded on this path (enumerator.callResults)
 	callRes map[*ssa.Call][]string
 }
@@ -1011,6 +1032,64 @@ func (e *enumerator) walkFn(fn *ssa.Function, ev []string, depth int, k func(ev 
 						return
 					}
 				}
+			case *ssa.Lookup:
+				// a lookup in a literal dispatch table: one continuation per entry the
+				// key can equal, and the miss
+				if lm := e.w.literalMap(stripConv(e.resolve(t.X, st))); lm != nil {
+					kc := e.w.Canon(e.resolve(t.Index, st))
+					var cands []int
+					hitKnown := false
+					for j, ent := range lm.Entries {
+						eq, known := e.keyEquals(t.Index, ent.Key, kc, st)
+						if known && eq {
+							cands = []int{j}
+							hitKnown = true
+							break
+						}
+						if !known {
+							cands = append(cands, j)
+						}
+					}
+					if st.lookups == nil {
+						st.lookups = map[*ssa.Lookup]lookupBinding{}
+					}
+					if st.keyFact == nil {
+						st.keyFact = map[string]keyFact{}
+					}
+					oldB, hadB := st.lookups[t]
+					oldF, hadF := st.keyFact[kc]
+					restore := func() {
+						if hadB {
+							st.lookups[t] = oldB
+						} else {
+							delete(st.lookups, t)
+						}
+						if hadF {
+							st.keyFact[kc] = oldF
+						} else {
+							delete(st.keyFact, kc)
+						}
+					}
+					for _, j := range cands {
+						ent := lm.Entries[j]
+						st.lookups[t] = lookupBinding{Val: ent.Val, Key: ent.Key, Hit: true}
+						st.keyFact[kc] = keyFact{hit: true, key: keyString(ent.Key)}
+						walk(b, i+1, ev)
+					}
+					if !hitKnown {
+						all := map[string]bool{}
+						for _, ent := range lm.Entries {
+							all[keyString(ent.Key)] = true
+						}
+						if of, ok := st.keyFact[kc]; !(ok && hadF && of.hit && all[of.key]) {
+							st.lookups[t] = lookupBinding{}
+							st.keyFact[kc] = keyFact{none: all}
+							walk(b, i+1, ev)
+						}
+					}
+					restore()
+					return
+				}
 			case *ssa.Store:
 				// a write into a local array / slice at a concrete index, or into a
 				// local variable that only this function reads and writes
@@ -1162,11 +1241,48 @@ func (e *enumerator) walkFn(fn *ssa.Function, ev []string, depth int, k func(ev 
 						}
 					}
 				}
+				// the branch taken tells whether a value compared with nil is nil on the
+				// rest of the path (a later load of the same local sees the same value)
+				var tested ssa.Value
+				nilOnTrue := false
+				if bo, isBO := t.Cond.(*ssa.BinOp); isBO && (bo.Op == token.EQL || bo.Op == token.NEQ) {
+					for _, pr := range [][2]ssa.Value{{bo.X, bo.Y}, {bo.Y, bo.X}} {
+						if c, isC := pr[1].(*ssa.Const); isC && c.IsNil() {
+							if rv := stripConv(e.resolve(stripConv(pr[0]), st)); rv != nil {
+								switch rv.(type) {
+								case *ssa.Call, *ssa.Extract:
+									tested, nilOnTrue = rv, bo.Op == token.EQL
+								}
+							}
+						}
+					}
+				}
+				branch := func(taken bool, succ *ssa.BasicBlock) {
+					if tested != nil {
+						if st.nilFact == nil {
+							st.nilFact = map[ssa.Value]int{}
+						}
+						old, had := st.nilFact[tested]
+						if taken == nilOnTrue {
+							st.nilFact[tested] = -1
+						} else {
+							st.nilFact[tested] = 1
+						}
+						defer func() {
+							if had {
+								st.nilFact[tested] = old
+							} else {
+								delete(st.nilFact, tested)
+							}
+						}()
+					}
+					enter(b, succ, mark(ev, taken))
+				}
 				if !known || v {
-					enter(b, b.Succs[0], mark(ev, true))
+					branch(true, b.Succs[0])
 				}
 				if !known || !v {
-					enter(b, b.Succs[1], mark(ev, false))
+					branch(false, b.Succs[1])
 				}
 				return
 			case *ssa.Jump:
@@ -1211,6 +1327,12 @@ func (e *enumerator) termOf(ret *ssa.Return, st *pathState, fn *ssa.Function) st
 			}
 			return "err"
 		}
+		switch st.nilFact[stripConv(v)] {
+		case 1:
+			return "err"
+		case -1:
+			return "ok"
+		}
 		// a forwarded result of a module function whose feasible returns agree
 		switch e.w.nilnessOnPath(v, st, e.eval, 0) {
 		case -1:
@@ -1227,6 +1349,10 @@ func (e *enumerator) termOf(ret *ssa.Return, st *pathState, fn *ssa.Function) st
 func (w *World) calleeOfValue(v ssa.Value) (*ssa.Function, ssa.Value) {
 	switch y := stripConv(v).(type) {
 	case *ssa.Function:
+		// a method expression used as a function value
+		if m := thunkTarget(y); m != nil {
+			return m, nil
+		}
 		return y, nil
 	case *ssa.MakeClosure:
 		f, ok := y.Fn.(*ssa.Function)
@@ -1370,6 +1496,75 @@ func loadCell(v ssa.Value, st *pathState) (memVal, bool) {
 		}
 	}
 	return memVal{}, false
+}
+
+type keyFact struct {
+	hit  bool
+	key  string
+	none map[string]bool // on a miss: the keys it does not equal
+}
+
+// lookupValue: the value a lookup in a literal dispatch table yields on this path
+// (the entry's value / the zero value, and the comma-ok flag).
+func lookupValue(v ssa.Value, st *pathState) (ssa.Value, bool) {
+	if st == nil || len(st.lookups) == 0 {
+		return nil, false
+	}
+	switch x := v.(type) {
+	case *ssa.Lookup:
+		if b, ok := st.lookups[x]; ok && !x.CommaOk {
+			if b.Hit {
+				return b.Val, true
+			}
+			return zeroConst(x.Type()), true
+		}
+	case *ssa.Extract:
+		if lk, isL := x.Tuple.(*ssa.Lookup); isL {
+			if b, ok := st.lookups[lk]; ok {
+				if x.Index == 1 {
+					return ssa.NewConst(constant.MakeBool(b.Hit), types.Typ[types.Bool]), true
+				}
+				if b.Hit {
+					return b.Val, true
+				}
+				return zeroConst(x.Type()), true
+			}
+		}
+	}
+	return nil, false
+}
+
+func zeroConst(t types.Type) ssa.Value {
+	switch u := t.Underlying().(type) {
+	case *types.Basic:
+		switch {
+		case u.Info()&types.IsBoolean != 0:
+			return ssa.NewConst(constant.MakeBool(false), t)
+		case u.Info()&types.IsString != 0:
+			return ssa.NewConst(constant.MakeString(""), t)
+		case u.Info()&types.IsNumeric != 0:
+			return ssa.NewConst(constant.MakeInt64(0), t)
+		}
+	}
+	return ssa.NewConst(nil, t)
+}
+
+// keyEquals: does the key expression equal the entry's constant on this path?
+func (e *enumerator) keyEquals(key ssa.Value, k ssa.Value, kc string, st *pathState) (bool, bool) {
+	kk := k.(*ssa.Const)
+	if c, ok := stripConv(e.resolve(key, st)).(*ssa.Const); ok && c.Value != nil && kk.Value != nil {
+		return constant.Compare(c.Value, token.EQL, kk.Value), true
+	}
+	if f, ok := st.keyFact[kc]; ok {
+		if f.hit {
+			return f.key == keyString(k), true
+		}
+		if f.none[keyString(k)] {
+			return false, true
+		}
+	}
+	// what the rule's abstract input says about `key == k`
+	return e.eval(&ssa.BinOp{Op: token.EQL, X: key, Y: k})
 }
 
 // localArrayBase: the local aggregate (array alloc, make([]T, n)) an indexed
@@ -1518,6 +1713,10 @@ func (e *enumerator) resolve(v ssa.Value, st *pathState) ssa.Value {
 			v = mv.v
 			continue
 		}
+		if lv, ok := lookupValue(v, st); ok {
+			v = lv
+			continue
+		}
 		ph, ok := v.(*ssa.Phi)
 		if !ok {
 			return v
@@ -1556,6 +1755,11 @@ func (w *World) evalBool(v ssa.Value, st *pathState, eval func(ssa.Value) (bool,
 			}
 		}
 	case *ssa.Extract:
+		if lv, ok := lookupValue(x, st); ok {
+			if c, isC := lv.(*ssa.Const); isC && c.Value != nil && c.Value.Kind() == constant.Bool {
+				return constant.BoolVal(c.Value), true
+			}
+		}
 		// a boolean result of a module helper: decided when its feasible returns agree
 		if isBoolType(x.Type()) {
 			if b, ok := eval(v); ok {
@@ -1582,6 +1786,23 @@ func (w *World) evalBool(v ssa.Value, st *pathState, eval func(ssa.Value) (bool,
 			}
 		}
 	case *ssa.BinOp:
+		// a key the path looked up in a dispatch table, compared with a constant
+		if (x.Op == token.EQL || x.Op == token.NEQ) && st != nil && len(st.keyFact) > 0 {
+			for _, pr := range [][2]ssa.Value{{x.X, x.Y}, {x.Y, x.X}} {
+				c, ok := pr[1].(*ssa.Const)
+				if !ok || c.Value == nil {
+					continue
+				}
+				if f, ok := st.keyFact[w.Canon(pr[0])]; ok {
+					if f.hit {
+						return (f.key == keyString(c)) == (x.Op == token.EQL), true
+					}
+					if f.none[keyString(c)] {
+						return x.Op == token.NEQ, true
+					}
+				}
+			}
+		}
 		// result of a module helper compared with nil: decided when the helper's
 		// feasible returns agree
 		if x.Op == token.EQL || x.Op == token.NEQ {
@@ -1865,6 +2086,10 @@ func (w *World) resolveValue(v ssa.Value, st *pathState, eval func(ssa.Value) (b
 			v = mv.v
 			continue
 		}
+		if lv, ok := lookupValue(v, st); ok {
+			v = lv
+			continue
+		}
 		switch x := v.(type) {
 		case *ssa.Phi:
 			if st != nil {
@@ -2040,10 +2265,21 @@ func (w *World) nilnessOnPath(v ssa.Value, st *pathState, eval func(ssa.Value) (
 			idx = y.Index
 		}
 		if call != nil {
-			if cal := call.Common().StaticCallee(); cal != nil && w.InModule(cal) && cal.Blocks != nil && depth <= 2 && len(cal.Params) == len(call.Common().Args) {
+			cal := call.Common().StaticCallee()
+			callArgs := call.Common().Args
+			if cal == nil && !call.Common().IsInvoke() {
+				// a handler the path picked (from a dispatch table, a switch)
+				if f, rcv := w.calleeOfValue(w.resolveValue(call.Common().Value, st, eval, 3)); f != nil {
+					cal = f
+					if rcv != nil {
+						callArgs = append([]ssa.Value{rcv}, callArgs...)
+					}
+				}
+			}
+			if cal != nil && w.InModule(cal) && cal.Blocks != nil && depth <= 2 && len(cal.Params) == len(callArgs) {
 				env := map[*ssa.Parameter]string{}
 				for j, p := range cal.Params {
-					env[p] = w.Canon(w.resolveValue(call.Common().Args[j], st, eval, depth+1))
+					env[p] = w.Canon(w.resolveValue(callArgs[j], st, eval, depth+1))
 				}
 				w.inlineEnv = append(w.inlineEnv, env)
 				vals, complete := w.returnedValues(cal, idx, eval, depth+1)
